@@ -38,6 +38,7 @@ def ancUp : Node → List Anc → List Anc
   | .spread .., x => x.drop 1
   | .inline .., x => x.drop 1
   | .fragmentDef .., x => x.drop 1
+  | .varDef _, x => x.drop 1
   | _, x => x
 
 def fKnownDir (s : SchemaD) : Node → List Anc → Nat
